@@ -50,7 +50,11 @@ func monitor(c Case) (kind, what string, params map[string]interface{}) {
 		// first occurrence or not is left open by the text: take what the queue reports
 		for _, p := range c.Init {
 			if _, in := qRef[p[0]]; !in {
-				qRef[p[0]] = im.Q.Priority(p[0])
+				pr, perr := im.QPriority(p[0]) // guarded: a panic here is a failure, not a crash of the harness
+				if perr != "" {
+					return "c15-heap-unexpected-panic-priority", fmt.Sprintf("Priority(%d) after construction: %s", p[0], perr), nil
+				}
+				qRef[p[0]] = pr
 			}
 		}
 	} else {
@@ -493,16 +497,18 @@ func randomScenario(rd *vlib.Rand, res *vlib.Result) Case {
 	for _, o := range c.Ops {
 		sh.Apply(o)
 	}
-	size := 0
-	if pq {
-		size = sh.Q.Len()
-	} else {
-		size = sh.H.Len()
-	}
+	size := sh.Size() // guarded; the shadow only steers the generation
 	k := rd.Intn(size + 1)
 	var mid *Op
 	if pq {
 		keys := sh.QueueKeys()
+		prioOf := func(key int) int {
+			p, perr := sh.QPriority(key)
+			if perr != "" {
+				res.Count("pq-shadow-panic")
+			}
+			return p
+		}
 		pick := func() int {
 			if len(keys) == 0 || rd.Chance(1, 5) {
 				return rd.Intn(c.U)
@@ -514,13 +520,13 @@ func randomScenario(rd *vlib.Rand, res *vlib.Result) Case {
 			mid = &Op{Name: "qpop"}
 		case 1:
 			key := pick()
-			mid = &Op{Name: "update", A: key, B: sh.Q.Priority(key) - 1 - rd.Intn(5)}
+			mid = &Op{Name: "update", A: key, B: prioOf(key) - 1 - rd.Intn(5)}
 		case 2:
 			key := pick()
-			mid = &Op{Name: "update", A: key, B: sh.Q.Priority(key) + 1 + rd.Intn(5)}
+			mid = &Op{Name: "update", A: key, B: prioOf(key) + 1 + rd.Intn(5)}
 		case 3:
 			key := pick()
-			mid = &Op{Name: "update", A: key, B: sh.Q.Priority(key)}
+			mid = &Op{Name: "update", A: key, B: prioOf(key)}
 		case 4:
 			mid = &Op{Name: "update", A: rd.Intn(c.U + 2), B: prio()}
 		case 5:
